@@ -39,6 +39,16 @@ def inputs(chk):
         for size in ([4096, 65536] if op != "clparse" else [4096, 30000]):
             out.append((op, [], big(rng, NOISE, size)))
             out.append((op, [], (rng.choice(ss) + b"\n") * (size // (len(rng.choice(ss)) + 2) + 1) if ss else b""))
+    # every truncation point of a few seeds, and every short string over each grammar's special characters:
+    # inputs that end right after a particular character are where index expressions go wrong
+    special = {"vparse": b"0a:-~+. ", "aparse": b"a-ny l", "alist": b"a- \t\n!", "dparse": b"a ,|()[]<>!${}=:", "rall": b"A: \n\t#.\r", "clparse": b"a (1);=,\n -"}
+    for op, ss in seeds.items():
+        for sd in ss[:chk.n(12, 120)]:
+            for k in range(len(sd) + 1):
+                out.append((op, [], sd[:k]))
+        alpha = [bytes([c]) for c in special[op]]
+        for w in gen.words(alpha, 3 if op != "dparse" else 3):
+            out.append((op, [], w))
     for kind in ("dsc", "changes", "deb_control"):
         for _ in range(n // 2):
             t, _, _ = gen_doc(rng, kind)
